@@ -97,18 +97,20 @@ type World struct {
 	lastSaveTip *model.Node
 	reloads     int
 
-	large               bool // long chain mode: chains cross 1000-header file boundaries; checks run per operation
-	straddled           bool
-	deepReorgSinceSave  bool            // a reorganisation deeper than the prune depth since the last completed Save
-	imageAfterDeepReorg bool            // the crash images being checked belong to an operation that followed such a reorganisation
-	ancestrySuffix      string          // appended to the classes of checkAncestry mismatches (crash images after such a reorganisation)
-	splits              []headers.Split // chain splits configured at low heights (hook)
-	splitAfter          map[model.Hash]int
-	splitBefore         map[model.Hash]bool
-	boundary            bool // long chain mode around the automatic clean at height 10000 with the real prune depth
-	quiet               bool // inside a bulk operation: per-event oracle groups are deferred to its end
-	markBeyondPrune     bool
-	trimParents         map[*model.Node]bool
+	large                bool // long chain mode: chains cross 1000-header file boundaries; checks run per operation
+	straddled            bool
+	deepReorgSinceSave   bool            // a reorganisation deeper than the prune depth since the last completed Save
+	markShrankSinceSave  bool            // a marking removed best-chain headers since the last completed Save
+	imageAfterMarkShrank bool            // the crash images being checked belong to an operation that followed such a marking
+	imageAfterDeepReorg  bool            // the crash images being checked belong to an operation that followed such a reorganisation
+	ancestrySuffix       string          // appended to the classes of checkAncestry mismatches (crash images after such a reorganisation)
+	splits               []headers.Split // chain splits configured at low heights (hook)
+	splitAfter           map[model.Hash]int
+	splitBefore          map[model.Hash]bool
+	boundary             bool // long chain mode around the automatic clean at height 10000 with the real prune depth
+	quiet                bool // inside a bulk operation: per-event oracle groups are deferred to its end
+	markBeyondPrune      bool
+	trimParents          map[*model.Node]bool
 
 	twin     *headers.Repository
 	twinLeft int
@@ -683,7 +685,7 @@ func (w *World) checkAncestry(inv string, repo *headers.Repository, tn *model.No
 		if w.sampledHeight(h, tn.Height) {
 			hash, err := repo.Hash(w.ctx, h)
 			if err != nil {
-				w.c.Fail(inv, "hash-error", "Hash(%d) failed: %s (tip height %d)", h, err, tn.Height)
+				w.c.Fail(inv, "hash-error"+w.ancestrySuffix, "Hash(%d) failed: %s (tip height %d)", h, err, tn.Height)
 				return false
 			}
 			if !hash.Equal(&x.Hash) {
